@@ -4,7 +4,7 @@
    Statements only; proofs in Proofs/SafeProofs.v (on top of the C09 development). *)
 From Coq Require Import ZArith NArith List Bool.
 From IE Require Import Model.TermCore Model.AnsiTok Model.Emu Proofs.TermProofs Proofs.AnsiProofs Proofs.EmuProofs Proofs.SafeProofs.
-From IE Require Import Model.Petscii Proofs.WeakInv Proofs.AnsiSafeW Proofs.EmuSafeW Proofs.PetsciiProofs.
+From IE Require Import Model.Petscii Proofs.WeakInv Proofs.AnsiSafeW Proofs.EmuSafeW Proofs.PetsciiProofs Proofs.MacroFuel.
 Import ListNotations.
 Local Open Scope Z_scope.
 
@@ -147,6 +147,11 @@ Proof.
   - destruct (c01_petscii music bs w h cs Hw Hh) as [m' E]. rewrite E. discriminate.
 Qed.
 
+(* (i) the nesting bound is only a bound: an outcome that is not the overflow is the outcome for every larger bound (the real
+   code has no bound); so a character overflows every bound iff the real recursion does not end *)
+Theorem macro_bound_is_only_a_bound : forall k fuel m ch, astep fuel m ch <> ODiverge -> astep (fuel + k) m ch = astep fuel m ch.
+Proof. exact astep_fuel_irrelevant. Qed.
+
 (* ---- non-vacuity of the extension ------------------------------------------------------------------------------------------------ *)
 Definition CSI : list Z := [27; 91].
 (* 30 LF, CSI 2;20 r, CSI 79 C, then the resize CSI 8;1;1 t: the cursor is outside the new 1 x 1 screen (the C09 invariant is gone) ... *)
@@ -177,3 +182,10 @@ Example petscii_runs :
   | RunOk m => (cx (mt m) =? 0) && (cy (mt m) =? 0) | _ => false end = true.
 Proof. vm_compute. reflexivity. Qed.
 Example petscii_error_value : petscii_step (init 0 false 40 25) 128 = MErr (init 0 false 40 25). Proof. vm_compute. reflexivity. Qed.
+(* macro 1 = "A", macro 2 = "ESC [ 1 * z": invoking macro 2 needs nesting 2: bound 1 overflows, bound 2 (and 32) end in a state *)
+Example nesting_two :
+  match run EAnsi (init 0 false 80 25) ([27; 80; 49; 59; 48; 59; 49; 33; 122; 52; 49; 27; 92] ++ [27; 80; 50; 59; 48; 59; 49; 33; 122; 49; 66; 53; 66; 51; 49; 50; 65; 55; 65; 27; 92] ++ [27; 91; 50; 42]) with
+  | RunOk m => (match astep 1 (am m) 122 with ODiverge => true | _ => false end) && (match astep 2 (am m) 122 with OOk _ => true | _ => false end)
+               && (match astep 32 (am m) 122 with OOk _ => true | _ => false end)
+  | _ => false end = true.
+Proof. vm_compute. reflexivity. Qed.
